@@ -224,3 +224,209 @@ fn finish_c25(_t: crate::core::Tier, rep: &mut Report) {
     if upd == 0 { rep.inconclusive("no update ever succeeded"); rep.count("inconclusive_fatal", 1); }
     if healthy_bad * 10 > upd { rep.inconclusive(format!("{healthy_bad} healthy steps did not end Updated (vs {upd} updated)")); rep.count("inconclusive_fatal", 1); }
 }
+
+//============ C24 ===========================================================
+
+pub const C24: Check = Check {
+    id: "C24",
+    level: "fault_enumeration",
+    rule: "the real RRDP collector runs one load_repository in a subprocess against the scripted fake server; numbered kill points \
+           (hook, SIGKILL to self) sit before every archive storage write, set_len, index finalisation, and before/after the removal \
+           and rename that replace the archive by a new snapshot. Per scenario (snapshot over existing copy, single delta, multi-delta, \
+           delta that conflicts and falls back to snapshot, first fetch) a counting run lists the K kill points, then the cache is \
+           restored and the update is killed at point n (quick: up to 14 spread over 1..K, thorough: every n); afterwards the server \
+           stays, or moves on by further versions, or starts a new session, and healthy runs follow. Oracle: every run after the crash \
+           that reports Updated must leave the archive (full iteration + recorded session/serial) equal to the server's notified state; \
+           a crashed cache that still fails after 3 healthy runs is counted (not a violation of this safety property; if frequent the check is inconclusive). distinct = (scenario, kill-point name, \
+           follow-up, first outcome after the crash) classes",
+    assumptions: &["process kill only: data written through the shared mapping or write() before the kill reaches the file (page cache), nothing is lost or reordered as a power failure could do",
+                   "after the crash the server only moves forward (further versions / new session), as the property states"],
+    shards: |_| 16,
+    watchdog: |t| Duration::from_secs(t.pick(900, 7200)),
+    budget: |t| Duration::from_secs(t.pick(60, 1500)),
+    run: run_c24,
+    crash_is_violation: false,
+    finish: Some(finish_c24),
+};
+
+/// `rv rrdp-child <dir> <proxy-url> <notify-uri>`: one collector run; prints the outcome and the local copy.
+pub fn child_main(args: &[String]) -> i32 {
+    let _hooks = crate::hooks::Hooks::install_from_env();
+    let dir = std::path::PathBuf::from(&args[0]);
+    let mut config = crate::util::base_config(&dir);
+    FakeHttps::configure_with(&mut config, &args[1]);
+    config.rrdp_fallback_time = Duration::from_secs(3600);
+    let notify = rpki::uri::Https::from_str(&args[2]).unwrap();
+    let mut coll = match RrdpCollector::new(&config) { Ok(Some(c)) => c, _ => { println!("{}", json!({"outcome": "init-failed"})); return 3 } };
+    if coll.ignite().is_err() { println!("{}", json!({"outcome": "ignite-failed"})); return 3 }
+    let run = coll.start();
+    let res = run.load_repository(&notify);
+    drop(run);
+    let outcome = match &res {
+        Ok(RrdpLoadResult::Updated(_)) => "updated", Ok(RrdpLoadResult::Current) => "current", Ok(RrdpLoadResult::Stale) => "stale",
+        Ok(RrdpLoadResult::Unavailable) => "unavailable", Err(e) => if (*e).is_fatal() { "run-failed-fatal" } else { "run-failed-retry" },
+    };
+    drop(res);
+    let local = match read_local(&config.cache_dir) {
+        Ok((session, serial, objs)) => json!({"session": session, "serial": serial, "objects": objs.iter().map(|(u, b)| (u.clone(), crate::net::rrdp::sha256_hex(b))).collect::<BTreeMap<String, String>>()}),
+        Err(e) => json!({"error": e}),
+    };
+    println!("{}", json!({"outcome": outcome, "local": local}));
+    0
+}
+
+struct ChildOut { killed: bool, exit: Option<i32>, outcome: String, local: serde_json::Value, kill_points: Vec<String> }
+
+fn run_child(dir: &std::path::Path, proxy: &str, notify: &str, kill_at: Option<u64>, log_points: bool) -> ChildOut {
+    use std::os::unix::process::ExitStatusExt;
+    let klog = dir.join("kill.log");
+    let _ = std::fs::remove_file(&klog);
+    let mut c = std::process::Command::new(std::env::current_exe().unwrap());
+    c.arg("rrdp-child").arg(dir).arg(proxy).arg(notify).stdin(std::process::Stdio::null()).stderr(std::process::Stdio::null());
+    if let Some(n) = kill_at { c.env("RV_KILL_AT", n.to_string()); }
+    if log_points || kill_at.is_some() { c.env("RV_KILL_LOG", &klog); }
+    let out = c.output().expect("spawn rrdp-child");
+    let killed = out.status.signal() == Some(libc::SIGKILL);
+    let v: serde_json::Value = serde_json::from_slice(out.stdout.split(|b| *b == b'\n').find(|l| l.starts_with(b"{")).unwrap_or(b"{}")).unwrap_or(json!({}));
+    let kill_points = std::fs::read_to_string(&klog).unwrap_or_default().lines().map(|l| l.split('\t').nth(1).unwrap_or("").to_string()).collect();
+    ChildOut { killed, exit: out.status.code(), outcome: v.get("outcome").and_then(|o| o.as_str()).unwrap_or("no-output").to_string(), local: v.get("local").cloned().unwrap_or(json!(null)), kill_points }
+}
+
+fn copy_dir(from: &std::path::Path, to: &std::path::Path) {
+    let _ = std::fs::remove_dir_all(to);
+    std::fs::create_dir_all(to).unwrap();
+    for e in std::fs::read_dir(from).unwrap().flatten() {
+        let p = e.path(); let t = to.join(e.file_name());
+        if p.is_dir() { copy_dir(&p, &t) } else { let _ = std::fs::copy(&p, &t); }
+    }
+}
+
+fn local_equals(local: &serde_json::Value, srv: &RrdpServer) -> Result<(), String> {
+    if let Some(e) = local.get("error") { return Err(format!("local copy unreadable: {e}")) }
+    let session = local.get("session").and_then(|s| s.as_str()).unwrap_or("");
+    let serial = local.get("serial").and_then(|s| s.as_u64()).unwrap_or(u64::MAX);
+    let objs: BTreeMap<String, String> = local.get("objects").and_then(|o| serde_json::from_value(o.clone()).ok()).unwrap_or_default();
+    let truth: BTreeMap<String, String> = srv.objects.iter().map(|(u, b)| (u.clone(), crate::net::rrdp::sha256_hex(b))).collect();
+    if session != srv.session || serial != srv.serial { return Err(format!("local copy records session {session} serial {serial}, server notified {} / {}", srv.session, srv.serial)) }
+    if objs != truth {
+        let mut d = Vec::new();
+        for (u, h) in &objs { match truth.get(u) { None => d.push(format!("{} only local", u.rsplit('/').next().unwrap_or(""))), Some(t) if t != h => d.push(format!("{} differs", u.rsplit('/').next().unwrap_or(""))), _ => {} } }
+        for u in truth.keys() { if !objs.contains_key(u) { d.push(format!("{} missing locally", u.rsplit('/').next().unwrap_or(""))); } }
+        return Err(d.join("; "))
+    }
+    Ok(())
+}
+
+fn run_c24(ctx: &mut Ctx, rep: &mut Report) {
+    let mut rng = ctx.rng("c24");
+    let fake = match FakeHttps::start() { Ok(f) => f, Err(e) => { rep.inconclusive(format!("fake https: {e}")); return } };
+    let proxy = fake.proxy_url();
+    let notify = format!("https://{HOST}/rrdp/notification.xml");
+    let cases = ctx.tier.pick(3usize, 40);
+    let mut counter = 0u64;
+    for case in 0..cases {
+        if !ctx.time_left() { rep.note("time budget reached"); break }
+        let scenario = *rng.pick(&["snapshot-over-copy", "single-delta", "multi-delta", "delta-conflict-then-snapshot", "first-fetch", "multi-delta"]);
+        let dir = crate::util::scratch_sub(&ctx.scratch, "c24");
+        let base = ctx.scratch.join("c24-base");
+        let mut srv = RrdpServer::new(HOST, 0x7000 + (ctx.seed & 0xfff) * 1000 + (ctx.shard as u64) * 50 + case as u64);
+        srv.objects = mutate_objects(&mut rng, &BTreeMap::new(), &mut counter);
+        for _ in 0..2 { srv.objects = mutate_objects(&mut rng, &srv.objects, &mut counter); }
+        fake.clear();
+        srv.install(&fake, &Faults::default());
+        // --- prime (except first-fetch)
+        if scenario != "first-fetch" {
+            let o = run_child(&dir, &proxy, &notify, None, false);
+            if o.outcome != "updated" { rep.inconclusive(format!("priming run ended {}", o.outcome)); continue }
+        }
+        // --- the update that will be interrupted
+        let mut faults = Faults::default();
+        match scenario {
+            "snapshot-over-copy" => { srv.new_session(0xa000 + counter); counter += 1; srv.objects = mutate_objects(&mut rng, &srv.objects, &mut counter); }
+            "single-delta" => { let n = mutate_objects(&mut rng, &srv.objects, &mut counter); srv.update(n); }
+            "multi-delta" => { for _ in 0..2 + rng.usize(3) { let n = mutate_objects(&mut rng, &srv.objects, &mut counter); srv.update(n); } }
+            "delta-conflict-then-snapshot" => { for _ in 0..2 { let n = mutate_objects(&mut rng, &srv.objects, &mut counter); srv.update(n); } faults.delta_fault = Some((0, *rng.pick(&[DeltaFault::LateWrongObjectHash, DeltaFault::WrongHash]))); }
+            _ => {}
+        }
+        fake.clear();
+        srv.install(&fake, &faults);
+        copy_dir(&dir, &base);
+        // counting run
+        let count = run_child(&dir, &proxy, &notify, None, true);
+        if count.outcome != "updated" { rep.inconclusive(format!("counting run of scenario {scenario} ended {}", count.outcome)); continue }
+        let k = count.kill_points.len() as u64;
+        rep.max("max_kill_points_in_one_update", k);
+        if k == 0 { rep.inconclusive(format!("no kill point reached in scenario {scenario}")); continue }
+        let picks: Vec<u64> = if ctx.tier.pick(true, false) && k > 14 {
+            let mut v: Vec<u64> = vec![1, 2, k - 1, k];
+            // the first and last occurrence of every distinct kind of step
+            let mut names: Vec<&String> = count.kill_points.iter().collect(); names.sort(); names.dedup();
+            for name in names {
+                if let Some(i) = count.kill_points.iter().position(|p| p == name) { if !v.contains(&(i as u64 + 1)) { v.push(i as u64 + 1) } }
+                if let Some(i) = count.kill_points.iter().rposition(|p| p == name) { if !v.contains(&(i as u64 + 1)) { v.push(i as u64 + 1) } }
+            }
+            while v.len() < 14 { let n = 1 + rng.below(k); if !v.contains(&n) { v.push(n) } }
+            v.sort(); v
+        } else { (1..=k).collect() };
+        for n in picks {
+            if !ctx.time_left() { rep.note("time budget reached"); break }
+            copy_dir(&base, &dir);
+            fake.clear();
+            srv.install(&fake, &faults);
+            ctx.begin_case(&json!({"scenario": scenario, "kill_at": n, "of": k}));
+            let killed = run_child(&dir, &proxy, &notify, Some(n), true);
+            rep.eval();
+            if !killed.killed { rep.inconclusive(format!("child was not killed at point {n}/{k} (exit {:?}, outcome {})", killed.exit, killed.outcome)); continue }
+            let point = count.kill_points.get(n as usize - 1).cloned().unwrap_or_default();
+            rep.count(&format!("kills_at_{point}"), 1);
+            // --- follow-up history
+            let mut after = srv.clone();
+            let follow = *rng.pick(&["server-unchanged", "one-more-version", "three-more-versions", "new-session"]);
+            match follow {
+                "one-more-version" => { let nn = mutate_objects(&mut rng, &after.objects, &mut counter); after.update(nn); }
+                "three-more-versions" => { for _ in 0..3 { let nn = mutate_objects(&mut rng, &after.objects, &mut counter); after.update(nn); } }
+                "new-session" => { after.new_session(0xb000 + counter); counter += 1; after.objects = mutate_objects(&mut rng, &after.objects, &mut counter); }
+                _ => {}
+            }
+            let mut first_outcome = String::new();
+            let mut recovered = false;
+            let mut trace = vec![json!({"scenario": scenario, "killed_at": n, "of": k, "point": point, "follow_up": follow})];
+            for attempt in 0..3 {
+                fake.clear();
+                // the fault of the interrupted update (if any) is gone after the crash
+                after.install(&fake, &Faults::default());
+                let o = run_child(&dir, &proxy, &notify, None, false);
+                if attempt == 0 { first_outcome = o.outcome.clone(); }
+                trace.push(json!({"run_after_crash": attempt + 1, "outcome": o.outcome, "server": {"session": after.session, "serial": after.serial}}));
+                if o.outcome == "updated" {
+                    recovered = true;
+                    if let Err(d) = local_equals(&o.local, &after) {
+                        rep.violation(format!("C24/updated-but-divergent-after-crash/{scenario}/{point}"), format!(
+                            "update killed at point {n}/{k} ({point}) in scenario {scenario}; run {} afterwards ({follow}) reported Updated but: {d}", attempt + 1),
+                            json!({"trace": trace, "seed": ctx.seed, "shard": ctx.shard, "case": case}));
+                    } else { rep.count("updated_and_equal_after_crash", 1); }
+                    break
+                }
+                if o.outcome.starts_with("run-failed-fatal") || o.outcome == "no-output" || o.outcome.ends_with("-failed") { break }
+                // move the server on a little so that each attempt sees a fresh notification
+                let nn = mutate_objects(&mut rng, &after.objects, &mut counter); after.update(nn);
+            }
+            if !recovered {
+                rep.count("not_recovered_within_3_runs", 1);
+                // not a violation of the (safety) property; recorded so that a vacuous run is visible
+                rep.note(format!("update killed at point {n}/{k} ({point}) in scenario {scenario}: three healthy runs afterwards all failed ({first_outcome} first)"));
+            }
+            rep.class(format!("{scenario}|{point}|{follow}|{first_outcome}"));
+            if rep.samples.len() < 2 { rep.sample(json!({"trace": trace})); }
+        }
+    }
+}
+
+fn finish_c24(_t: crate::core::Tier, rep: &mut Report) {
+    if rep.counters.get("updated_and_equal_after_crash").copied().unwrap_or(0) == 0 && rep.violations.is_empty() {
+        rep.inconclusive("no crashed update was followed by a successful one"); rep.count("inconclusive_fatal", 1);
+    }
+    let ok = rep.counters.get("updated_and_equal_after_crash").copied().unwrap_or(0);
+    let bad = rep.counters.get("not_recovered_within_3_runs").copied().unwrap_or(0);
+    if bad > ok { rep.inconclusive(format!("{bad} crashed caches did not recover within 3 healthy runs (vs {ok} that did)")); rep.count("inconclusive_fatal", 1); }
+}
